@@ -166,7 +166,7 @@ GROUPS = {
 def run_dependencies(r):
     """Run, under ``<prop>-DEP/``, the value rules of every group the property's analysed functions reach and does not own."""
     prop = r.rep.prop
-    entries = set(r.rep.functions)
+    entries = set(r.rep.functions) | set(getattr(r, "read_functions", ()))
     if not entries:
         return
     reach, globs = reachable(r, entries)
